@@ -23,6 +23,9 @@
 // identical answer in every repetition.  ASan/UBSan (or TSan in the tsan build) abort
 // = memory-safety / race failure.  hardware_concurrency() is interposed so that the
 // public entry points run with the requested number of workers.
+#include <fcntl.h>
+#include <signal.h>
+
 #include "c04_run.hpp"
 
 unsigned g_hw = 4;
@@ -125,6 +128,26 @@ static std::string show_lcp(const RunResult& r, bool with_lcp) {
     for (size_t i = 1; i < r.lcp.size(); ++i) { if (i > 1) s += ','; s += std::to_string(r.lcp[i]); }
     return s;
 }
+
+// ------------------------------------------------------------------ watchdog
+// A sort that does not return (broken classification, lost notification, ...) is a
+// failure of the property ("terminates").  alarm() cuts the operation off with a `#VIOL`
+// line; once that happened (marker file named by $C04_WATCHDOG) the limits become short so
+// that a tree on which every sort hangs does not stall the check.
+static const char* g_wd_what = "";
+static void wd_fire(int) {
+    const char* a = "#VIOL sort did not terminate within the time limit [";
+    (void)!write(1, a, strlen(a)); (void)!write(1, g_wd_what, strlen(g_wd_what)); (void)!write(1, "]\n", 2);
+    if (const char* m = getenv("C04_WATCHDOG")) { int fd = open(m, O_CREAT | O_WRONLY, 0644); if (fd >= 0) close(fd); }
+    _exit(91);
+}
+static void wd_arm(unsigned secs, const char* what) {
+    if (const char* m = getenv("C04_WATCHDOG")) if (access(m, F_OK) == 0) secs = secs > 100 ? 60 : 3;
+    g_wd_what = what;
+    signal(SIGALRM, wd_fire);
+    alarm(secs);
+}
+static void wd_off() { alarm(0); }
 
 static void do_runs(const ParamInfo* pi, const Strs& in, const std::string& repr, unsigned threads, bool with_lcp,
                     unsigned reps, const std::string& what, bool print_order) {
@@ -327,7 +350,9 @@ int main(int argc, char** argv) {
             vh::answer("ok");
         } else if (t[0] == "go" && t.size() == 1) {
             if (!cfg_pi) { vh::answer("bad-op"); continue; }
+            wd_arm(45, cfg_name.c_str());
             do_runs(cfg_pi, input, cfg_repr, cfg_threads, cfg_lcp, cfg_reps, cfg_name, true);
+            wd_off();
         } else if (t[0] == "big" && t.size() == 11) {
             const ParamInfo* pi = find_params(t[1]);
             unsigned threads = atoi(t[3].c_str()), reps = atoi(t[5].c_str());
@@ -336,7 +361,9 @@ int main(int argc, char** argv) {
             if (!pi || !repr_ok(pi, t[2]) || threads < 1 || threads > 16 || reps < 1 || (t[4] != "0" && t[4] != "1") || in.size() != n || n == 0) {
                 vh::answer("bad-op"); continue;
             }
+            wd_arm(600, "big");
             do_runs(pi, in, t[2], threads, t[4] == "1", reps, t[1] + "/" + t[2] + "/" + t[3] + "thr/" + t[6], false);
+            wd_off();
         } else if (t[0] == "keyfn" && t.size() == 4) {
             uint64_t a = strtoull(t[1].c_str(), nullptr, 10), b = strtoull(t[2].c_str(), nullptr, 10);
             unsigned d = atoi(t[3].c_str());
